@@ -28,6 +28,10 @@ import (
 	"verif/sched"
 )
 
+func init() {
+	ev.Timed("c09/write-cancel-not-honoured", "c09/cancel-not-honoured", "c09/blocked-fetch-survives-close", "c09/next-after-close")
+}
+
 func TestMain(m *testing.M) { ev.Main(m, "C09") }
 
 func TestReplay(t *testing.T) { ev.RunReplay(t) }
